@@ -265,7 +265,9 @@ def run_unit(unit: Unit, repo: str = REPO, probe: bool = True, tag: str = '', _d
                 rest.wall_s = time.time() - t0
                 return rest
             if ffs:
+                # the file still does not type-check, so nothing else of it was decided: only the disagreeing clauses are counted
                 ur.failures = ffs
+                ur.obligations = sorted({f.obligation for f in ffs})
                 ur.status = 'failed'
                 ur.wall_s = time.time() - t0
                 return ur
